@@ -10,21 +10,28 @@ EXTENDS Integers, FiniteSets, TLC
 
 Titles == {"one", "max16", "padded", "inner_space", "over16_padded", "over16", "spaces_only"}
 NContexts == {1, 2, 3, 127, 128, 129}
-CtxShapes == {"distinct", "same_abstract", "many_ts"}
+\* ("no_ts" / "no_abstract": one PresentationContext object was built by hand and lacks its transfer syntaxes / abstract syntax -
+\*  the API either refuses the configuration or whatever it sends is conformant)
+CtxShapes == {"distinct", "same_abstract", "many_ts", "no_ts", "no_abstract"}
 MaxPdus == {"zero", "default", "u32max", "small"}
 ExtNeg == SUBSET {"role", "async", "sopext", "common", "identity"}
 VerNames == {"default", "none", "long16"}
 AcceptorKinds == {"all", "none", "some_roles_off", "ts_mismatch"}
+\* where the PresentationContext objects given to associate() come from: built for this request (no ID yet), taken from
+\* an earlier association (they carry the IDs they had there - with gaps where contexts were rejected), new ones in front
+\* of reused ones, or all carrying the same ID
+IdOrigins == {"fresh", "reused", "mixed", "dup"}
 
 VARIABLE c
 Config == [calling : Titles, called : {"max16", "padded", "one"}, n : NContexts, shape : CtxShapes, maxpdu : MaxPdus,
-           ext : ExtNeg, ver : VerNames, acc : AcceptorKinds]              \* the full product: 580 608 configurations
+           ext : ExtNeg, ver : VerNames, acc : AcceptorKinds, ids : IdOrigins]      \* the full product: 2.3 million configurations
 \* the pairwise-interesting slice exported for replay (the full product is 7*3*6*3*4*32*3*4 = 580k):
 \* vary one group at a time around two base configurations, plus all ext_neg subsets
-Base1 == [calling |-> "max16", called |-> "max16", n |-> 2, shape |-> "distinct", maxpdu |-> "default", ext |-> {}, ver |-> "default", acc |-> "all"]
-Base2 == [calling |-> "padded", called |-> "padded", n |-> 3, shape |-> "same_abstract", maxpdu |-> "zero", ext |-> {"role", "identity"}, ver |-> "none", acc |-> "some_roles_off"]
+Base1 == [calling |-> "max16", called |-> "max16", n |-> 2, shape |-> "distinct", maxpdu |-> "default", ext |-> {}, ver |-> "default", acc |-> "all", ids |-> "fresh"]
+Base2 == [calling |-> "padded", called |-> "padded", n |-> 3, shape |-> "same_abstract", maxpdu |-> "zero", ext |-> {"role", "identity"}, ver |-> "none", acc |-> "some_roles_off", ids |-> "fresh"]
 Near(b) == {[b EXCEPT !.calling = t] : t \in Titles} \cup {[b EXCEPT !.called = t] : t \in {"max16", "padded", "one"}}
            \cup {[b EXCEPT !.n = k, !.shape = s] : k \in NContexts, s \in CtxShapes}
+           \cup {[b EXCEPT !.n = k, !.shape = s, !.ids = o] : k \in {2, 3, 128}, s \in CtxShapes, o \in IdOrigins}
            \cup {[b EXCEPT !.maxpdu = m] : m \in MaxPdus} \cup {[b EXCEPT !.ext = e] : e \in ExtNeg}
            \cup {[b EXCEPT !.ver = w] : w \in VerNames} \cup {[b EXCEPT !.acc = a, !.ext = e] : a \in AcceptorKinds, e \in {{}, {"role"}, {"role", "identity"}}}
 Selected == Near(Base1) \cup Near(Base2)
